@@ -25,6 +25,8 @@ type c28Scenario struct {
 	Net    NetCfg `json:"net"`
 	Resume bool   `json:"resume"`
 	CutAt  int    `json:"cut_at,omitempty"` // >0: the server→client stream is cut (FIN) at this offset of the first connection
+	Decline bool  `json:"decline,omitempty"` // the second connection meets a server that has tickets disabled: the offered ticket is declined
+	SCTs   int    `json:"scts,omitempty"`    // number of SCTs the server attaches (well-formed, unknown version, truncated, ...)
 	Tape   []int  `json:"tape,omitempty"`
 }
 
@@ -36,6 +38,15 @@ func genC28(seed uint64, tier string) any {
 	sc.Resume = sc.Client.Cache && r.Chance(1, 2)
 	sc.Client.EMS = r.Chance(1, 3)
 	sc.Server.EMS = r.Chance(1, 2)
+	sc.Decline = sc.Resume && r.Chance(1, 4)
+	sc.SCTs = []int{0, 0, 1, 2, 3, 4}[r.Intn(6)]
+	if r.Chance(1, 5) {
+		// a scanning client: no certificate verification, and only some (signature, hash) pairs acceptable
+		sc.Client.SkipVerify = true
+		for k := r.Range(1, 3); k > 0; k-- {
+			sc.Client.SigHashes = append(sc.Client.SigHashes, uint16(r.Range(2, 6))<<8|1)
+		}
+	}
 	// most runs should negotiate TLS <= 1.2, where the log has the most fields
 	if r.Chance(1, 2) {
 		sc.Server.MaxVersion = []uint16{vTLS10, vTLS11, vTLS12, vTLS12}[r.Intn(4)]
@@ -162,6 +173,9 @@ func execC28(t *testing.T, scAny any, keepLog bool) *Outcome {
 		if sc.Client.Cache {
 			ccfg.ClientSessionCache = cache
 		}
+		if sc.SCTs > 0 {
+			scfg.Certificates[0].SignedCertificateTimestamps = c28SCTs(sc.SCTs, sc.Seed)
+		}
 		var cut *byteFilter
 		co := startConn(run, "a", ccfg, scfg, sc.Net, nil)
 		if sc.CutAt > 0 {
@@ -178,7 +192,13 @@ func execC28(t *testing.T, scAny any, keepLog bool) *Outcome {
 			if cur := cache.cur[serverName]; cur != nil {
 				presented = tls.VerifSessionTicket(cur)
 			}
-			co2 := startConn(run, "b", ccfg, scfg, sc.Net, nil)
+			scfg2 := scfg
+			if sc.Decline {
+				scfg2 = scfg.Clone()
+				scfg2.SessionTicketsDisabled = true
+				o.count("fault.ticket_declined_by_server", 1)
+			}
+			co2 := startConn(run, "b", ccfg, scfg2, sc.Net, nil)
 			s.Run()
 			o.Fail = c28Check(sc, co2, keylog.Bytes(), presented, o)
 		}
@@ -381,6 +401,25 @@ func c28Check(sc *c28Scenario, co *connOutcome, keylog []byte, presentedTicket [
 			return Failf("c28.serverhello", "logged ServerHello matches no ServerHello on the wire", "%s", why)
 		}
 		o.count("probe.serverhello_compared", 1)
+		// signed certificate timestamps (TLS <= 1.2: extension 18 of the ServerHello)
+		if wsh != nil {
+			if d, ok := wsh.ext(18); ok && len(d) >= 2 {
+				var wire [][]byte
+				r := &reader{b: d[2:]}
+				for len(r.b) > 0 && !r.err {
+					wire = append(wire, r.vec16())
+				}
+				if len(lsh.SignedCertificateTimestamps) != len(wire) {
+					return Failf("c28.scts", "logged SCT list differs from the list in the ServerHello", "log %d SCTs, wire %d", len(lsh.SignedCertificateTimestamps), len(wire))
+				}
+				for i := range wire {
+					if !bytes.Equal(lsh.SignedCertificateTimestamps[i].Raw, wire[i]) {
+						return Failf("c28.scts", "logged SCT differs from the one on the wire", "position %d", i)
+					}
+				}
+				o.count("probe.scts_compared", 1)
+			}
+		}
 	}
 	if wsh == nil {
 		return nil
@@ -453,13 +492,13 @@ func c28Check(sc *c28Scenario, co *connOutcome, keylog []byte, presentedTicket [
 			}
 		}
 		if ls := lk.Signature; ls != nil {
-			if !bytes.Equal(ls.Raw, w.SigData) {
+			if len(ls.Raw) > 0 && !bytes.Equal(ls.Raw, w.SigData) {
 				return Failf("c28.skx.sig", "logged ServerKeyExchange signature bytes differ from the wire", "log %d bytes wire %d bytes", len(ls.Raw), len(w.SigData))
 			}
 			if uint16(ls.Version) != version {
 				return Failf("c28.skx.sig", "logged signature TLS version differs from the negotiated one", "log %04x negotiated %04x", uint16(ls.Version), version)
 			}
-			if !ls.Valid && co.CErr == nil {
+			if !ls.Valid && co.CErr == nil && !sc.Client.SkipVerify {
 				return Failf("c28.skx.sig", "signature logged as invalid on a handshake that completed", "")
 			}
 			if w.HasAlg {
@@ -653,6 +692,35 @@ func c28Check(sc *c28Scenario, co *connOutcome, keylog []byte, presentedTicket [
 	return nil
 }
 
+// c28SCTs builds n serialized SCTs (RFC 6962 3.2): the first is well-formed, the others cycle through an
+// unknown version, a truncated structure and a second well-formed one.
+func c28SCTs(n int, seed uint64) [][]byte {
+	good := func(k byte) []byte {
+		b := []byte{0} // v1
+		id := make([]byte, 32)
+		id[0] = k
+		b = append(b, id...)
+		b = append(b, 0, 0, 1, 0x5e, 0, 0, 0, k) // timestamp
+		b = append(b, 0, 0)                    // no extensions
+		b = append(b, 4, 3, 0, 4, 1, 2, 3, k)  // sha256/ecdsa, 4-byte signature
+		return b
+	}
+	var out [][]byte
+	for i := 0; i < n; i++ {
+		switch i % 4 {
+		case 0, 3:
+			out = append(out, good(byte(i+1)))
+		case 1:
+			x := good(byte(i + 1))
+			x[0] = 7 // unknown version
+			out = append(out, x)
+		case 2:
+			out = append(out, good(byte(i + 1))[:20]) // truncated
+		}
+	}
+	return out
+}
+
 // dig walks nested JSON objects.
 func dig(m map[string]any, path ...string) any {
 	var cur any = m
@@ -695,7 +763,7 @@ func init() {
 		Stub:   []string{"transport", "clock", "entropy", "PKI", "harness transcript parser and reference PRF"},
 		Assume: []string{"for a HelloRetryRequest flow the logged ServerHello may be either the HelloRetryRequest or the final ServerHello", "algorithm names are compared by family (rsa/pkcs1v15/rsapss = RSA) and hash name; 'intrinsic' is accepted for RSA-PSS"},
 		FaultKinds: []string{"fault.connection_cut", "probe.clienthello_compared", "probe.serverhello_compared", "probe.certs_compared", "probe.skx_compared", "probe.skx_sigalg_compared", "probe.ckx_compared", "probe.ticket_compared",
-			"probe.clienthello_ticket_logged", "probe.master_secret_vs_keylog", "probe.master_from_premaster", "probe.finished_compared", "probe.resumed_log_checked"},
+			"probe.clienthello_ticket_logged", "probe.master_secret_vs_keylog", "probe.master_from_premaster", "probe.finished_compared", "probe.resumed_log_checked", "probe.scts_compared", "fault.ticket_declined_by_server"},
 		NotInjected: "adversarial wire faults are not injected (the log of a corrupted handshake is exercised for panics under C32); only a clean cut of the connection",
 		Gen:         genC28, New: func() any { return &c28Scenario{} }, Exec: execC28, Shrink: shrinkC28,
 		QuickRuns: 8000, ThoroughRuns: 600000,
